@@ -231,6 +231,35 @@ func parseRoute(pattern string, customConstraints ...CustomConstraint) routePars
 	return parser
 }
 
+// adoptConstraintData gives the constraints of a parser that was built from the normalised (case-folded)
+// pattern the data of the pattern as declared: case folding concerns the path, not a regular expression
+// or a datetime layout. Both parsers stem from the same pattern, so their parameter segments correspond.
+func (parser *routeParser) adoptConstraintData(declared *routeParser) {
+	j := 0
+	for _, seg := range parser.segs {
+		if !seg.IsParam {
+			continue
+		}
+		for j < len(declared.segs) && !declared.segs[j].IsParam {
+			j++
+		}
+		if j == len(declared.segs) {
+			return
+		}
+		src := declared.segs[j]
+		j++
+		if len(src.Constraints) != len(seg.Constraints) {
+			continue
+		}
+		for k, c := range seg.Constraints {
+			c.Data = src.Constraints[k].Data
+			c.RegexCompiler = src.Constraints[k].RegexCompiler
+			// a custom constraint is looked up by the exact Name() it was registered with
+			c.Name = src.Constraints[k].Name
+		}
+	}
+}
+
 // addParameterMetaInfo add important meta information to the parameter segments
 // to simplify the search for the end of the parameter
 func addParameterMetaInfo(segs []*routeSegment) []*routeSegment {
